@@ -122,9 +122,16 @@ PrintValue(desc, value) ==
                ELSE LET ni == CHOOSE i \in 1..Len(v.nested) : v.nested[i].name = value.cmd2 IN
                     <<value.cmd2>> \o PrintFields(v.nested[ni].fields, value.sub2) \o PrintPositionals(v.nested[ni].fields, value.sub2)))
 \* an optional-value option directly before a positional would swallow it; `--` is not needed otherwise
+\* (at every level: the top struct, the variant's fields, the nested variant's fields)
+NoDashValues(vals) == \A i \in 1..Len(vals) : \A k \in 1..Len(vals[i].v) : vals[i].v[k] = <<>> \/ vals[i].v[k][1] # 45
+NoEmptyOptVec(fs, vals) == ~(\E i \in 1..Len(fs) : fs[i].shape = "optvec" /\ vals[i].p /\ vals[i].v = <<>>)
 Printable(desc, value) ==
-  /\ \A i \in 1..Len(value.top) : \A k \in 1..Len(value.top[i].v) : value.top[i].v[k] = <<>> \/ value.top[i].v[k][1] # 45
-  /\ ~(\E i \in 1..Len(desc.fields) : desc.fields[i].shape = "optvec" /\ value.top[i].p /\ value.top[i].v = <<>>)
+  /\ NoDashValues(value.top) /\ NoDashValues(value.sub) /\ NoDashValues(value.sub2)
+  /\ NoEmptyOptVec(desc.fields \o desc.flatten.fields, value.top)
+  /\ (value.cmd # <<>> =>
+        LET v == desc.subs.variants[CHOOSE i \in 1..Len(desc.subs.variants) : desc.subs.variants[i].name = value.cmd] IN
+        /\ (value.cmd2 = <<>> => NoEmptyOptVec(v.fields, value.sub))
+        /\ (value.cmd2 # <<>> => NoEmptyOptVec(v.nested[CHOOSE i \in 1..Len(v.nested) : v.nested[i].name = value.cmd2].fields, value.sub2)))
 
 \* ---- the update rule ------------------------------------------------------------------------
 \* fields named on the command line of the update (explicit source in the update's own matches)
